@@ -24,7 +24,7 @@ struct verif_c17_ghost {
   /* messages */
   DBusMessage *msg[NMSG]; dbus_uint32_t msg_reply_serial[NMSG]; int msg_type[NMSG]; int msg_refs[NMSG];
   /* ghost map */
-  DBusHashTable *table; _Bool present[NMAP]; dbus_uint32_t key[NMAP]; DBusPendingCall *val[NMAP]; int removals, lookups;
+  DBusHashTable *table; _Bool present[NMAP]; dbus_uint32_t key[NMAP]; DBusPendingCall *val[NMAP]; int removals, lookups; dbus_uint32_t lookup_key;
   /* timeouts */
   int timeout_adds, timeout_removes; DBusTimeout *timeout_removed;
   /* notify */
@@ -43,7 +43,7 @@ DBusMessage *dbus_message_ref (DBusMessage *m) { int i = verif_msg_index (m); PR
 void dbus_message_unref (DBusMessage *m) { int i = verif_msg_index (m); PRE (i >= 0 && G.msg_refs[i] > 0, "dbus_message_unref: a live message"); G.msg_refs[i]--; }
 static int verif_map_find (dbus_uint32_t key) { for (int i = 0; i < NMAP; i++) if (G.present[i] && G.key[i] == key) return i; return -1; }
 static _Bool verif_attached (DBusPendingCall *p) { for (int i = 0; i < NMAP; i++) if (G.present[i] && G.val[i] == p) return 1; return 0; }
-void *_dbus_hash_table_lookup_int (DBusHashTable *t, int key) { PRE (t == G.table, "_dbus_hash_table_lookup_int: pending_replies"); G.lookups++; int i = verif_map_find ((dbus_uint32_t) key); return i < 0 ? NULL : G.val[i]; }
+void *_dbus_hash_table_lookup_int (DBusHashTable *t, int key) { PRE (t == G.table, "_dbus_hash_table_lookup_int: pending_replies"); G.lookups++; G.lookup_key = (dbus_uint32_t) key; int i = verif_map_find ((dbus_uint32_t) key); return i < 0 ? NULL : G.val[i]; }
 int _dbus_hash_table_get_n_entries (DBusHashTable *t) { PRE (t == G.table, "_dbus_hash_table_get_n_entries"); int n = 0; for (int i = 0; i < NMAP; i++) if (G.present[i]) n++; return n; }
 static void verif_map_remove (int i)
 {
